@@ -134,7 +134,9 @@ def check(ck: Checker) -> None:
         atoms = [t for t in dir_atoms if _is_dir_atom(t, side)]
         # every way round the loop body that avoids the descent is either the shortcut or crosses
         # "this side is not a directory" (directly, or through a flag computed from it)
-        lifted_side = with_flags(g, lambda a, lab, side=side: a.kind == "test" and _is_dir_atom(a, side) and lab == "F", start=h.id)
+        # lifted as ONE disjunction: a flag may be cleared on one path because of the shortcut and on another because
+        # this side is not a directory
+        lifted_side = with_flags(g, lambda a, lab, side=side: a.kind == "test" and ((_is_dir_atom(a, side) and lab == "F") or any(lit(a, lab) for lit in required.values())), start=h.id)
         rr = g.reach(starts, skip_node=lambda x: x.id in dids, skip_edge=lambda a, l, b, ls=lifted_side: l == "exc" or ls(a, l) or lifted_short(a, l))
         ok = bool(atoms) and h.id not in rr
         ck.require(ok, "C08.descent", fn, atoms[0] if atoms else h,
